@@ -528,7 +528,7 @@ def _get_sort_aux(node):  # noqa: C901
         if ident == 'select':
             asort = get_sort(node[1])
             if is_array_sort(asort):
-                return asort[1]
+                return asort[2]
             return None
         if ident == 'store':
             return get_sort(node[1])
